@@ -76,12 +76,19 @@ def gen_path(rnd, sd):
         for e in els:
             e['bend'] = 1
             e['bend_radius'] = R + abs(e['offset']) + e['width']
-        n = rnd.randrange(2, 5)
+        n = rnd.randrange(2, 6)
         pts = []
         cx, cy = p0
-        for _ in range(n):
+        rmax = max(e['bend_radius'] for e in els)
+        for k_ in range(n):
             d = direction()
-            d = (d[0] * 3, d[1] * 3)       # segments >= 4 radii so that the bend fits
+            ln = math.hypot(*d)
+            if 0 < k_ < n - 1 and rnd.random() < 0.4:
+                # a short segment shared by two bends: room for one tangent length but not for two (the second bend must not be drawn)
+                f = rmax * rnd.uniform(1.15, 1.85) / ln
+            else:
+                f = 3.0                    # segments >= 4 radii so that the bend fits
+            d = (d[0] * f, d[1] * f)
             cx, cy = cx + d[0], cy + d[1]
             pts.append((cx, cy))
         calls.append(('segment', pts))
